@@ -349,11 +349,12 @@ func (s *Recursive) buildTupleMapperForID(ctx context.Context, req *Request, edg
 	if recursiveType == RecursiveTypeTTU {
 		iterFilters = append(iterFilters, BuildTuplesetObjectFilter())
 	}
-	iterFilters = append(iterFilters, BuildUniqueTupleKeyFilter(visited, uniqueKeyFunc))
 	conditions := edge.GetConditions()
 	if len(conditions) > 0 && (len(conditions) > 1 || conditions[0] != authzGraph.NoCond) {
 		iterFilters = append(iterFilters, BuildConditionTupleKeyFilter(ctx, s.model, conditions, req.GetContext()))
 	}
+	// after the condition filter: a tuple whose condition does not hold must not mark its target as visited
+	iterFilters = append(iterFilters, BuildUniqueTupleKeyFilter(visited, uniqueKeyFunc))
 	i := iterator.NewFilteredIterator(iter, iterFilters...)
 	return storage.WrapIterator(kind, i), nil
 }
